@@ -108,73 +108,46 @@ func toIdentRef(bases []*meta.Identity, v interface{}) (val.IdentRef, error) {
 }
 
 func toIdentRefList(base []*meta.Identity, v interface{}) (val.IdentRefList, error) {
-	switch x := v.(type) {
-	case string:
-		ref, err := toIdentRef(base, x)
+	rv := reflect.ValueOf(v)
+	if rv.Kind() != reflect.Slice {
+		// single item
+		ref, err := toIdentRef(base, v)
 		if err != nil {
 			return nil, err
 		}
-		return val.IdentRefList([]val.IdentRef{ref}), err
-	case []string:
-		var refs []val.IdentRef
-		for _, s := range x {
-			ref, err := toIdentRef(base, s)
-			if err != nil {
-				return nil, err
-			}
-			refs = append(refs, ref)
-		}
-		return refs, nil
-	case []interface{}:
-		// e.g. JSON array
-		refs := make([]val.IdentRef, len(x))
-		for i, item := range x {
-			ref, err := toIdentRef(base, item)
-			if err != nil {
-				return nil, err
-			}
-			refs[i] = ref
-		}
-		return refs, nil
+		return val.IdentRefList([]val.IdentRef{ref}), nil
 	}
-	return nil, fmt.Errorf("could not coerce '%v' into identref list", v)
+	// []string, []interface{} (e.g. JSON array), val.IdentRefList, ...
+	refs := make([]val.IdentRef, rv.Len())
+	for i := range refs {
+		ref, err := toIdentRef(base, rv.Index(i).Interface())
+		if err != nil {
+			return nil, err
+		}
+		refs[i] = ref
+	}
+	return refs, nil
 }
 
 func toEnumList(src val.EnumList, v interface{}) (val.EnumList, error) {
-	switch x := v.(type) {
-	case []string:
-		l := make([]val.Enum, len(x))
-		var err error
-		for i := 0; i < len(x); i++ {
-			if l[i], err = toEnum(src, x[i]); err != nil {
-				return nil, err
-			}
+	rv := reflect.ValueOf(v)
+	if rv.Kind() != reflect.Slice {
+		// single item
+		e, err := toEnum(src, v)
+		if err != nil {
+			return nil, err
 		}
-		return l, nil
-	case []interface{}:
-		l := make([]val.Enum, len(x))
+		return val.EnumList([]val.Enum{e}), nil
+	}
+	// []string, []interface{}, []int and other integer slices, val.EnumList, ...
+	l := make([]val.Enum, rv.Len())
+	for i := range l {
 		var err error
-		for i := 0; i < len(x); i++ {
-			if l[i], err = toEnum(src, x[i]); err != nil {
-				return nil, err
-			}
-		}
-		return l, nil
-	case []int:
-		l := make([]val.Enum, len(x))
-		var err error
-		for i := 0; i < len(x); i++ {
-			if l[i], err = toEnum(src, x[i]); err != nil {
-				return nil, err
-			}
-		}
-		return l, nil
-	default:
-		if e, err := toEnum(src, v); err != nil {
-			return val.EnumList([]val.Enum{e}), nil
+		if l[i], err = toEnum(src, rv.Index(i).Interface()); err != nil {
+			return nil, err
 		}
 	}
-	return nil, fmt.Errorf("could not coerce '%v' into enum list", v)
+	return l, nil
 }
 
 func toEnum(src val.EnumList, v interface{}) (val.Enum, error) {
